@@ -22,7 +22,17 @@ A *program spec* is a JSON value
           "h:a" the name hard-coded at the forwarding call AFTER the unpacking: callee(**kwargs, a=value) |
           inline forms - the kwargs.pop/get expression is itself an argument of the forwarding call:
           "I:a" callee(<other name>=kwargs.pop("a", d), **kwargs) | "J:a" the same with kwargs.get |
-          "S:a" callee(a=kwargs.pop("a", d), **kwargs) | "Q:a" callee(kwargs.pop("a", d), **kwargs) (first positional).
+          "S:a" callee(a=kwargs.pop("a", d), **kwargs) | "Q:a" callee(kwargs.pop("a", d), **kwargs) (first positional) |
+          taken and given again under the same name at the forwarding call (same scope only):
+          "R:a" v = kwargs.pop("a", d); callee(a=v, **kwargs) | "T:a" v = kwargs.get("a", d); callee(a=v, **kwargs) |
+          "U:a" callee(a=kwargs.get("a", d), **kwargs)  (after a get the name is still inside **kwargs: passing it
+          gives the keyword twice, so the interpreter never accepts it).
+
+Links "super_own" / "super_method_own" are the explicit own-class spelling of super(): super(ThisClass, self).m(**kwargs).
+
+Sibling hierarchies (siblings()): for the first run of super-linked classes, every further root class `SibN` that can
+be put over the run's non-root classes (<= 2 bases, decided by Python's MRO computation) and in whose method
+resolution order some shared class is followed by a different class than in the run's own order.
 
 Nothing here imports jsonargparse.
 """
@@ -36,6 +46,7 @@ FOREIGN = "zz"
 # link -> kind of the next level
 TARGET = {
     "super": "C",
+    "super_own": "C",
     "super_skip": "C",
     "call_fn": "F",
     "call_cls": "C",
@@ -49,6 +60,7 @@ TARGET = {
     "cc_else": "F",
     "call_classmethod": "K",
     "super_method": "M",
+    "super_method_own": "M",
     "cls_call": "C",
     "name_call": "C",
     "ncc": "F",
@@ -57,6 +69,7 @@ TARGET = {
 LINKS_FROM = {
     "C": [
         "super",
+        "super_own",
         "super_skip",
         "call_fn",
         "call_cls",
@@ -73,12 +86,14 @@ LINKS_FROM = {
         "inst_method",
     ],
     "F": ["call_fn", "call_cls", "cc_if", "cc_elifnot", "cc_else", "call_classmethod", "ncc", "inst_method"],
-    "M": ["call_fn", "call_cls", "super_method"],
+    "M": ["call_fn", "call_cls", "super_method", "super_method_own"],
     "K": ["cls_call", "name_call"],
 }
 TERMINALS = ["T0", "T1"]
 DEFERRED = {"attr_method", "attr_prop", "dict_update", "dict_literal"}
 DICT_LINKS = {"dict_update", "dict_literal"}
+SUPER_LINKS = ("super", "super_own")  # super().__init__(**kwargs) and its explicit spelling super(ThisClass, self).__init__(**kwargs)
+SUPER_METHOD_LINKS = ("super_method", "super_method_own")
 ROOTS = ["C", "F", "K", "M"]
 
 
@@ -98,15 +113,19 @@ def op_popget(op):
             return op[0], op[2], False
         if op[0] in "ISQ":
             return "P", op[2], True
-        if op[0] == "J":
+        if op[0] in "JU":
             return "G", op[2], True
+        if op[0] == "R":
+            return "P", op[2], False
+        if op[0] == "T":
+            return "G", op[2], False
     return None
 
 
 def op_hard(op):
     """The name given as a hard-coded keyword at the forwarding call, or None."""
     if len(op) == 3:
-        if op[0] in "HhS":
+        if op[0] in "HhSRTU":
             return op[2]
         if op[0] in "IJ":
             return other(op[2])
@@ -126,6 +145,18 @@ def op_gives(op):
 def op_inline(op):
     pg = op_popget(op)
     return bool(pg and pg[2])
+
+
+def op_regiven(op):
+    """The name taken by the level's kwargs.pop/get is given again, under the same name, at the forwarding call."""
+    pg = op_popget(op)
+    return bool(pg) and op_hard(op) == pg[1]
+
+
+def op_same_scope(op):
+    """The forwarding call uses something evaluated in the level's own scope (an inline pop/get, or the variable that
+    holds the popped / got value): not combinable with the deferred-use links, whose call is in another method."""
+    return op_inline(op) or op[:1] in ("R", "T")
 
 
 # ---------------------------------------------------------------------------------------------------
@@ -160,9 +191,9 @@ def first_super_run(root, links):
     kinds = kinds_of(root, links)
     i = 0
     while i < len(links):
-        if kinds[i] == "C" and links[i] == "super":
+        if kinds[i] == "C" and links[i] in SUPER_LINKS:
             j = i
-            while j < len(links) and links[j] == "super":
+            while j < len(links) and links[j] in SUPER_LINKS:
                 j += 1
             return i, j  # levels i..j are the classes of the run
         i += 1
@@ -241,7 +272,7 @@ def behaviours(size):
     """List of (own, op).  Sizes: "full" > "mid" > "small" > "tiny"."""
     out = []
     if size == "full":
-        ops = [""] + [f"{o}:{n}" for o in "PGNHhI" for n in NAMES] + ["J:b", "S:a", "Q:a", "Hp"]
+        ops = [""] + [f"{o}:{n}" for o in "PGNHhI" for n in NAMES] + ["J:b", "S:a", "Q:a", "Hp", "R:a", "T:a", "U:a"]
         for own in _own_combos(NAMES):
             for op in ops:
                 pg = op_popget(op)
@@ -254,10 +285,13 @@ def behaviours(size):
         out += [("b", ""), ("B", ""), ("ab", ""), ("Ab", ""), ("b", "P:a"), ("b", "G:a"), ("b", "H:a"), ("a", "P:b")]
         # hard-coded after the unpacking; pop/get written inline as an argument of the forwarding call
         out += [("", "h:a"), ("", "I:b"), ("", "J:b"), ("", "S:a"), ("", "Q:a")]
+        # kwargs.get of a name that is given again at the forwarding call (statement form; the inline form is in "small+")
+        out += [("", "T:a")]
     elif size == "med":
         out = [("", ""), ("a", ""), ("A", ""), ("", "P:a"), ("", "G:a"), ("", "N:a"), ("", "H:a"), ("a", "H:a"), ("", "Hp"), ("b", "")]
     elif size == "small+":
         out = [("", ""), ("a", ""), ("A", ""), ("", "P:a"), ("", "G:a"), ("", "H:a"), ("", "h:a"), ("", "I:b"), ("", "Hp"), ("ab", "")]
+        out += [("", "R:a"), ("", "U:a")]
     elif size == "small":
         out = [("", ""), ("a", ""), ("A", ""), ("", "P:a"), ("", "G:a"), ("", "H:a")]
     elif size == "tiny4":
@@ -279,8 +313,8 @@ def level_choices(link, size):
             continue  # nothing is forwarded
         if op_hard_positional(op) and link in DICT_LINKS:
             continue
-        if op_inline(op) and link in DEFERRED:
-            continue  # the forwarding call of a deferred use is in another scope: no `kwargs` there
+        if op_same_scope(op) and link in DEFERRED:
+            continue  # the forwarding call of a deferred use is in another scope: no `kwargs` / local variable there
         if op[:1] == "h" and link == "dict_update":
             continue  # dict(k=v) + update(**kwargs): there is no position after the unpacking
         out.append((own, op))
@@ -353,9 +387,72 @@ class _Cls:
         self.name, self.bases, self.members = name, [], []
 
 
-def render(spec):
+def run_classes(spec):
+    """(class names of the first run of super-linked classes in method-resolution order, their bases as index lists)
+    - including the class without __init__ of a blank layout - or None (no run, or the "pt" / "mixin" layouts, which
+    are two of the blank layouts)."""
+    root, levels, layout = spec["root"], spec["levels"], spec.get("layout", "lin")
+    links = [l[0] for l in levels]
+    run = first_super_run(root, links)
+    if run is None or layout in ("pt", "mixin"):
+        return None
+    names = [f"C{i}" for i in range(run[0], run[1] + 1)]  # a class level reached by a super link owns its own class
+    if run[0] > 0 and links[run[0] - 1] in ("cls_call", "name_call"):
+        names[0] = f"C{run[0] - 1}"  # cls(**kwargs) inside a classmethod: the class that owns the classmethod
+    if isinstance(layout, dict):
+        names.insert(layout["blank"], "Blank")
+        bases = layout["bases"]
+    elif isinstance(layout, list):
+        bases = layout
+    else:
+        bases = [[i + 1] if i + 1 < len(names) else [] for i in range(len(names))]
+    return names, [list(b) for b in bases]
+
+
+_sibling_cache = {}
+
+
+def sibling_bases(bases, max_bases=2):
+    """Base lists (indexes >= 1 into the run, <= max_bases, ordered) of every further root class over the run's
+    non-root classes whose method resolution order CONTINUES DIFFERENTLY after some shared class: a class j that is
+    followed by j+1 in the run's own order is followed by another class (or by nothing) in the sibling's order.
+    Decided by Python's own MRO computation."""
+    key = (repr(bases), max_bases)
+    if key in _sibling_cache:
+        return _sibling_cache[key]
+    k = len(bases)
+    classes = [None] * k
+    for i in reversed(range(k)):
+        classes[i] = type(f"c{i}", tuple(classes[j] for j in bases[i]) or (object,), {})
+    assert [c for c in classes[0].__mro__ if c is not object] == classes, bases
+    out = []
+    for n in range(1, max_bases + 1):
+        for combo in itertools.permutations(range(1, k), n):
+            try:
+                sib = type("sib", tuple(classes[j] for j in combo), {})
+            except TypeError:
+                continue
+            mro = [classes.index(c) for c in sib.__mro__[1:] if c is not object]
+            nxt = [(mro[p], mro[p + 1] if p + 1 < len(mro) else None) for p in range(len(mro))]
+            if any(b != (a + 1 if a + 1 < k else None) for a, b in nxt):
+                out.append(list(combo))
+    _sibling_cache[key] = out
+    return out
+
+
+def siblings(spec):
+    """[(class name, [base class names])] of the sibling hierarchies of a program (empty without a run of >= 3)."""
+    rc = run_classes(spec)
+    if rc is None or len(rc[0]) < 3:
+        return []
+    names, bases = rc
+    return [(f"Sib{n}", [names[j] for j in combo]) for n, combo in enumerate(sibling_bases(bases))]
+
+
+def render(spec, with_siblings=False):
     """Return the module source of the program.  The module exposes
-    _invoke(**kw) (calls the root), ROOT = (function_or_class, method_name_or_None), LOG, PENDING, LEVELS."""
+    _invoke(**kw) (calls the root), ROOT = (function_or_class, method_name_or_None), LOG, PENDING, LEVELS; with
+    with_siblings also RUN_TOP (the top class of the first super run) and SIBLINGS (the sibling root classes)."""
     root, levels, layout, scheme = spec["root"], spec["levels"], spec.get("layout", "lin"), spec.get("scheme", "diff")
     links = [l[0] for l in levels]
     kinds = kinds_of(root, links)
@@ -387,7 +484,7 @@ def render(spec):
     run = first_super_run(root, links)
     for i in range(n):
         link = links[i]
-        if kinds[i] == "C" and link == "super":
+        if kinds[i] == "C" and link in SUPER_LINKS:
             if run and run[0] <= i < run[1] and isinstance(layout, (list, dict)):
                 continue  # handled by the explicit layout below
             if run and i == run[0] and layout == "pt":
@@ -410,7 +507,7 @@ def render(spec):
                 f"        super().__init__(**kwargs)\n"
             )
             cls(owner[i]).bases = [mid.name]
-        elif kinds[i] == "M" and link == "super_method":
+        elif kinds[i] == "M" and link in SUPER_METHOD_LINKS:
             cls(owner[i]).bases = [owner[i + 1]]
     if run and isinstance(layout, list):
         for off, bases in enumerate(layout):
@@ -464,6 +561,8 @@ def render(spec):
         if hard is not None:
             if inline_expr:
                 val = inline_expr  # the value is the pop/get expression itself (evaluated before **kwargs is unpacked)
+            elif op[0] in "RT":
+                val = f"v_{hard}"  # the popped / got value itself is given again
             else:
                 # `a=a` (the level's own parameter passed on by name) where the call is in the same scope
                 val = hard if hard in own.lower() and link not in DEFERRED else str(hard_value(i, hard))
@@ -478,6 +577,8 @@ def render(spec):
             nxt = i + 1
             callee = {
                 "super": "super().__init__",
+                "super_own": f"super({owner[i]}, self).__init__",
+                "super_method_own": f"super({owner[i]}, self).meth",
                 "super_skip": f"super(Mid{i}, self).__init__",
                 "call_fn": f"f{nxt}",
                 "call_cls": f"C{nxt}",
@@ -593,6 +694,15 @@ def render(spec):
     for i in sides:
         lv.append(f"'side{i}': side{i}")
     out.append("LEVELS = {" + ", ".join(lv) + "}\n")
+    if with_siblings:
+        sibs = siblings(spec)
+        for name, bases in sibs:
+            out.append(
+                f"\n\nclass {name}({', '.join(bases)}):\n    def __init__(self, **kwargs):\n"
+                f"        _log('{name.lower()}')\n        super().__init__(**kwargs)\n"
+            )
+        if sibs:
+            out.append(f"\n\nRUN_TOP = {run_classes(spec)[0][0]}\nSIBLINGS = [{', '.join(n for n, _ in sibs)}]\n")
     return "".join(out)
 
 
